@@ -99,6 +99,18 @@ def plan(prop, tier, seed, avoid):
         rule = (f"histories generated by profile 'churn' (see C01 for the scheme) plus dump/load round trips of churn worlds, 40% of them with the "
                 f"dump used as a checkpoint (source world mutated between dump and load); {spec['rule_extra']}")
         return dict(jobs=jobs, rule=rule, assumptions=ASSUME_ENGINE)
+    if prop == "C19":
+        # entity statistics of worlds whose pool was installed by LoadEntities (several worlds loaded from one dump, loads after Reset)
+        spec = ENGINE[prop]
+        jobs = engine_jobs(prop, tier, seed, avoid)
+        cases = 800 if tier == "quick" else 30000
+        for sh in range(8):
+            jobs.append(dict(cmd="serworker", variant="plain", label=f"serworker/shard{sh}", env={}, watchdog=3000,
+                             args=["-seed", str(seed + 43), "-shard", str(sh), "-nshards", "8", "-cases", str(cases), "-pairs", "100"]))
+        rule = (f"histories generated by profile '{spec['profile']}' (see C01 for the scheme) plus dump/load round trips of churn worlds: "
+                f"Stats().Entities of source, loaded world, a sibling loaded from the same dump and a second load are compared with the numbers "
+                f"of alive handles at dump time and during lockstep operation; {spec['rule_extra']}")
+        return dict(jobs=jobs, rule=rule, assumptions=ASSUME_ENGINE)
     if prop == "C16":
         # Reset of a world whose entity pool was installed by LoadEntities (the dump/load worker resets every loaded world at the end)
         spec = ENGINE[prop]
